@@ -411,7 +411,7 @@ fn cli_opts_s() -> BoxedStrategy<CliOpts> {
             prop::bool::weighted(0.08),
             prop::bool::weighted(0.03),
             proptest::option::weighted(0.1, (weird(), weird(), weird())),
-            proptest::option::weighted(0.2, (0u8..5, select(vec!["", "/", ".", "..", "./", "sub/", "out.json", "out.xml", "comp.csv", "fact.csv", "a/../b.json", "ñandú.json", " ", "no/existe/x.txt", "/dev/null", "/dev/full", "/proc/nonexistent/x"]).prop_map(|s| s.to_string()))),
+            proptest::option::weighted(0.2, (0u8..5, select(vec!["", "", "/", "/", ".", "..", "./", "sub/", "out.json", "out.xml", "comp.csv", "fact.csv", "a/../b.json", "ñandú.json", " ", "no/existe/x.txt", "/dev/null", "/dev/full", "/proc/nonexistent/x"]).prop_map(|s| s.to_string()))),
         ),
     )
         .prop_map(|(kexp, arearef, red1, loc_opt, outputs, bad_output_dir, missing_components_file, verbose, no_strip, (no_components, license, red2, odd_path))| CliOpts {
